@@ -79,10 +79,21 @@ impl SwiftField for Field11R {
         // Parse optional input sequence number (6!n)
         let input_sequence_number =
             if remaining.len() >= 6 && remaining[..6].chars().all(|c| c.is_ascii_digit()) {
-                Some(remaining[..6].to_string())
+                let seq = Some(remaining[..6].to_string());
+                remaining = &remaining[6..];
+                seq
             } else {
                 None
             };
+
+        if !remaining.is_empty() {
+            return Err(ParseError::InvalidFormat {
+                message: format!(
+                    "Field 11R has unexpected trailing characters: {}",
+                    remaining
+                ),
+            });
+        }
 
         Ok(Field11R {
             message_type,
@@ -210,10 +221,21 @@ impl SwiftField for Field11S {
         // Parse optional input sequence number (6!n)
         let input_sequence_number =
             if remaining.len() >= 6 && remaining[..6].chars().all(|c| c.is_ascii_digit()) {
-                Some(remaining[..6].to_string())
+                let seq = Some(remaining[..6].to_string());
+                remaining = &remaining[6..];
+                seq
             } else {
                 None
             };
+
+        if !remaining.is_empty() {
+            return Err(ParseError::InvalidFormat {
+                message: format!(
+                    "Field 11S has unexpected trailing characters: {}",
+                    remaining
+                ),
+            });
+        }
 
         Ok(Field11S {
             message_type,
